@@ -26,3 +26,4 @@ PROP = {
     "assumptions": STD_ASSUME + ["Erfi is judged for |x| <= 26.6 (beyond, exp(x^2) overflows although the true value is still finite up to |x| ~ 26.7) and must be +-inf where the true value overflows",
                                  "the gradient clause for Psi is judged where sin(theta) > 1e-6; at the poles only tangentiality and conjugation symmetry are judged"],
 }
+PROP["level_text"] += ' Psi exactly at the poles must continue the field next to them; a result held by reference must not change when another harmonic is evaluated.'
